@@ -33,8 +33,9 @@ theorem decVar_vec (env : Env) (fuel tag : Nat) (req : Bool) (e : Ty) (old : Val
           match readLen r1 with
           | (.error er, r') => (.error er, r')
           | (.ok len, r2) =>
-            if len < 0 then (.error (.panic "makeslice"), r2)
-            else decElems env fuel e len.toNat [] r2
+            match checkLength len r2 with
+            | (.error er, r') => (.error er, r')
+            | (.ok (), r3) => decElems env fuel e len.toNat [] r3
         else if tyCur = tySimpleList then
           if e = .i8 ∨ e = .u8 then
             match skipTo tyBYTE 0 true r1 with
@@ -62,7 +63,8 @@ theorem decVar_arr (env : Env) (fuel tag : Nat) (req : Bool) (n : Nat) (e : Ty) 
           match readLen r1 with
           | (.error er, r') => (.error er, r')
           | (.ok len, r2) =>
-            decArr env fuel e n 0 len (oldList old) r2
+            if len > (n : Int) then (.error .mismatch, r2)
+            else decArr env fuel e n 0 len (oldList old) r2
         else (.error .mismatch, r1) := by
   conv => lhs; unfold decVar
   rfl
@@ -76,7 +78,10 @@ theorem decVar_map (env : Env) (fuel tag : Nat) (req : Bool) (k v : Ty) (old : V
         else
           match readLen r1 with
           | (.error er, r') => (.error er, r')
-          | (.ok len, r2) => decPairs env fuel k v len [] r2 := by
+          | (.ok len, r2) =>
+            match checkLength len r2 with
+            | (.error er, r') => (.error er, r')
+            | (.ok (), r3) => decPairs env fuel k v len [] r3 := by
   conv => lhs; unfold decVar
   rfl
 
